@@ -1034,3 +1034,124 @@ def fam_const(r, idx):
 
 def to_signed(v, bits):
     return v - (1 << bits) if v >= (1 << (bits - 1)) else v
+
+
+# ---------------------------------------------------------------------------------------------
+# directed cases: always part of the struct campaign (leaf table, known-finding witnesses,
+# shapes the random families reach only now and then)
+
+
+def _compute_entry(spec, name="cs_main"):
+    e = Entry(name, "compute")
+    e.workgroup_size = [1]
+    e.workgroup_expected = [1, 1, 1]
+    spec.entries.append(e)
+    return e
+
+
+def _storage(spec, name, ty, binding, access="read_write", space="storage"):
+    g = Global(name, "buffer", space=space, access=access if space == "storage" else "read",
+               ty=ty, group=0, binding=binding)
+    spec.globals.append(g)
+    return g
+
+
+def directed_struct_specs():
+    out = []
+
+    def new(tag):
+        s = ShaderSpec()
+        s.families = ["struct", "directed", tag]
+        out.append(s)
+        return s
+
+    def st(spec, name, members):
+        spec.structs[name] = W.StructDef(name, [dict({"name": n, "ty": t}, **(kw or {}))
+                                                for (n, t, kw) in members])
+        return W.ST(name)
+
+    # explicit @align / @size
+    s = new("align")
+    _storage(s, "buf", st(s, "AlignTrap", [("a", W.S("f32"), None), ("b", W.S("f32"), {"align": 8}),
+                                           ("c", W.V(4, "f32"), None)]), 0)
+    _compute_entry(s)
+    s = new("size")
+    _storage(s, "buf", st(s, "SizeTrap", [("a", W.V(2, "f32"), None), ("b", W.V(2, "u32"), None),
+                                          ("c", W.V(2, "f32"), None),
+                                          ("d", W.V(4, "f32"), {"size": 20}),
+                                          ("e", W.S("u32"), None)]), 0)
+    _compute_entry(s)
+    # stage output struct that is also host-shareable (builtin members)
+    s = new("builtin-host")
+    vo = st(s, "VOutHost", [("pos", W.V(4, "f32"), {"builtin": "position"}),
+                            ("color", W.V(4, "f32"), {"location": 0}),
+                            ("w", W.S("f32"), {"location": 3})])
+    _storage(s, "saved", W.A(vo, 2), 0)
+    e = Entry("vs_main", "vertex")
+    e.result = {"kind": "struct", "struct": "VOutHost"}
+    s.entries.append(e)
+    s = new("builtin-host-frag")
+    fo = st(s, "FOutHost", [("a", W.V(4, "f32"), {"location": 0}),
+                            ("c", W.V(4, "f32"), {"location": 2}),
+                            ("d", W.S("f32"), {"builtin": "frag_depth"}),
+                            ("t", W.V(2, "f32"), {"location": 1})])
+    _storage(s, "saved", W.A(fo, None), 0)
+    e = Entry("fs_main", "fragment")
+    e.result = {"kind": "struct", "struct": "FOutHost"}
+    s.entries.append(e)
+    # reachability through three levels and arrays of arrays
+    s = new("deep")
+    st(s, "L0", [("v", W.V(4, "f32"), None)])
+    st(s, "L1", [("x", W.A(W.ST("L0"), 2), None), ("k", W.V(4, "u32"), None)])
+    st(s, "L2", [("y", W.A(W.A(W.ST("L1"), 2), 2), None)])
+    st(s, "L3", [("z", W.ST("L2"), None), ("n", W.V(4, "i32"), None)])
+    _storage(s, "root", W.ST("L3"), 0)
+    _compute_entry(s)
+    # vec3 packing
+    s = new("vec3")
+    st(s, "Vec3ThenScalar", [("a", W.V(3, "f32"), None), ("b", W.S("f32"), None),
+                             ("c", W.V(3, "u32"), None), ("d", W.S("i32"), None)])
+    st(s, "ScalarThenVec3", [("a", W.S("f32"), None), ("b", W.V(3, "f32"), None),
+                             ("c", W.A(W.V(3, "f32"), 2), None), ("m", W.M(3, 3), None)])
+    _storage(s, "p", W.ST("Vec3ThenScalar"), 0)
+    _storage(s, "q", W.ST("ScalarThenVec3"), 1)
+    _compute_entry(s)
+    # runtime arrays
+    s = new("rts")
+    st(s, "Elem", [("p", W.V(3, "f32"), None), ("r", W.S("f32"), None)])
+    st(s, "RtVec3", [("count", W.S("u32"), None), ("items", W.A(W.V(3, "f32"), None), None)])
+    st(s, "RtStruct", [("count", W.V(4, "u32"), None), ("items", W.A(W.ST("Elem"), None), None)])
+    st(s, "RtMat", [("items", W.A(W.M(3, 3), None), None)])
+    _storage(s, "a", W.ST("RtVec3"), 0)
+    _storage(s, "b", W.ST("RtStruct"), 1)
+    _storage(s, "c", W.ST("RtMat"), 2)
+    _compute_entry(s)
+    # leaf table: matrices
+    for kind in ("f32", "f64"):
+        s = new("matrices-" + kind)
+        st(s, "Mats", [("m%d%d" % (c, r), W.M(c, r, kind), None) for c in (2, 3, 4)
+                       for r in (2, 3, 4)])
+        _storage(s, "m", W.ST("Mats"), 0)
+        _compute_entry(s)
+    # leaf table: scalars and vectors
+    for kind in ("f32", "i32", "u32", "f64"):
+        s = new("vectors-" + kind)
+        st(s, "Vecs", [("s", W.S(kind), None)] + [("v%d" % n, W.V(n, kind), None)
+                                                  for n in (2, 3, 4)] +
+           [("arr", W.A(W.V(2, kind), 3), None), ("nest", W.A(W.A(W.S(kind), 2), 3), None)])
+        _storage(s, "v", W.ST("Vecs"), 0)
+        _compute_entry(s)
+    # atomics
+    s = new("atomics")
+    st(s, "Counters", [("a", W.AT("u32"), None), ("b", W.AT("i32"), None),
+                       ("hist", W.A(W.AT("u32"), 4), None), ("pad", W.S("u32"), None)])
+    _storage(s, "c", W.ST("Counters"), 0)
+    _compute_entry(s)
+    # uniform, well-formed (encase UniformBuffer path)
+    s = new("uniform")
+    st(s, "Camera", [("view", W.M(4, 4), None), ("pos", W.V(3, "f32"), None),
+                     ("fov", W.S("f32"), None), ("jitter", W.M(3, 3), None),
+                     ("ids", W.V(4, "u32"), None), ("lights", W.A(W.V(4, "f32"), 3), None)])
+    _storage(s, "camera", W.ST("Camera"), 0, space="uniform")
+    _compute_entry(s)
+    return out
